@@ -238,6 +238,77 @@ pub fn verify_crafted(ctx: &Ctx, rep: &mut Report) {
     }
     go::<F512>(ctx, rep);
     go::<F1024>(ctx, rep);
+    // structured residuals in the TRANSFORM domain: verify inverse-transforms c^ - s2^ h^; with
+    // s2 = 1 and h = c - intt(T) that residual is exactly T, for T running over block patterns
+    // (runs of near-maximal entries followed by near-zero ones, periods 2..256, both phases),
+    // constants and saws: the inverse transform inside verify meets the operand patterns that a
+    // lazy-reduction schedule is most sensitive to
+    fn residual_patterns<V: Fv>(ctx: &Ctx, rep: &mut Report) {
+        let n = V::N;
+        let q = spec::Q;
+        let mut rng = rng_for(ctx.seed, &format!("c03-residual-{}", V::NAME));
+        let mut pats: Vec<(String, Vec<i64>)> = vec![("all-max".into(), vec![q - 1; n]), ("saw".into(), (0..n).map(|i| if i % 2 == 0 { 0 } else { q - 1 }).collect())];
+        for blk in [1usize, 2, 4, 8, 16, 32, 64, 128] {
+            for phase in [0usize, 1] {
+                pats.push((format!("square-period{}-phase{}", 2 * blk, phase), (0..n).map(|i| if (i / blk) % 2 == phase { q - 1 } else { 0 }).collect()));
+                use rand::Rng;
+                pats.push((format!("noisy-square-period{}-phase{}", 2 * blk, phase), (0..n).map(|i| if (i / blk) % 2 == phase { q - 1 - rng.gen_range(0..3) } else { rng.gen_range(0..3) }).collect()));
+            }
+        }
+        let mut xm = vec![0i16; n];
+        xm[1] = 1;
+        let roots: Vec<i64> = match monitored(|| falcon_rust::verif_hooks::ntt(&xm)) {
+            Ok(v) => v.iter().map(|&x| x as i64).collect(),
+            Err(_) => return,
+        };
+        // root_k^{-j} for all k, j
+        let inv_pow: Vec<Vec<i64>> = roots
+            .iter()
+            .map(|&r| {
+                let ri = spec::powm(spec::modq(r), q - 2);
+                let mut v = Vec::with_capacity(n);
+                let mut p = 1i64;
+                for _ in 0..n {
+                    v.push(p);
+                    p = p * ri % q;
+                }
+                v
+            })
+            .collect();
+        let ninv = spec::powm(n as i64, q - 2);
+        for (name, t) in pats {
+            // s1 = inverse transform of T in the crate's OWN slot order, computed by the harness:
+            // the evaluation point of slot k is read off the forward transform of the monomial x
+            let s1: Vec<i64> = (0..n)
+                .map(|j| {
+                    let mut acc = 0i64;
+                    for k in 0..n {
+                        acc = (acc + t[k] * inv_pow[k][j]) % q;
+                    }
+                    acc * ninv % q
+                })
+                .collect();
+            let salt: Vec<u8> = (0..40).map(|i| (i * 7) as u8).collect();
+            let msg = format!("residual {}", name).into_bytes();
+            let mut rm = salt.clone();
+            rm.extend_from_slice(&msg);
+            let c = spec::hash_to_point(&rm, n);
+            let h: Vec<i64> = (0..n).map(|i| spec::modq(c[i] - s1[i])).collect();
+            let mut s2 = vec![0i64; n];
+            s2[0] = 1;
+            let mut sb = vec![0x50 | V::LOGN];
+            sb.extend_from_slice(&salt);
+            sb.extend_from_slice(&spec::compress(&s2, V::SIG_LEN - 41).unwrap());
+            let pkb = spec::pk_encode(&h);
+            if let Ok(pk) = V::pk_from_bytes(&pkb) {
+                verify_one::<V>(&format!("residual-{}", name), &msg, &sb, &pk, &pkb, rep);
+                rep.count("transform_domain_residual_patterns", 1);
+            }
+        }
+    }
+    residual_patterns::<F512>(ctx, rep);
+    residual_patterns::<F1024>(ctx, rep);
+    rep.require("transform_domain_residual_patterns", 40);
     // call sequences over related keys of the two parameter sets (see C02): panic monitor only
     for seq in super::c02::related_variant_sequences(ctx.seed, ctx.sz(6, 60)) {
         let seq_ref = &seq;
